@@ -168,3 +168,5 @@ func writeLines(path string, lines []string) {
 	w.Flush()
 	f.Close()
 }
+
+func newRng(seed int64) *rand.Rand { return rand.New(rand.NewSource(seed)) }
